@@ -633,13 +633,24 @@ fn copy_entry(c: &mut Ctx, fs: &mut MFs, sk: &str, target: &str, visiting: &mut 
                 }
                 Some(e) => {
                     if let MKind::Symlink(_) = e.kind {
-                        // a link in the way of a directory: create_dir_all follows it if it leads to a directory; left open
-                        fs.nodes.get_mut(&tkey).unwrap().origin = Origin::Open;
-                        mark_open_below(c, fs, &real_key, target);
+                        // a link to a directory in the way of a directory: the copy goes through it
+                        // (dest "itself" is that directory); anything else behind the link cannot work
+                        match fs.look(c.cwd, target, true) {
+                            Look::Found(k) if fs.get(&k).map(|n| n.kind == MKind::Dir).unwrap_or(false) => {
+                                if fs.get(&k).unwrap().origin == Origin::Initial {
+                                    fs.nodes.get_mut(&k).unwrap().origin = Origin::InitialDir;
+                                }
+                            }
+                            _ => {
+                                fs.nodes.get_mut(&tkey).unwrap().origin = Origin::Open;
+                                fail(c.ex, format!("directory {} onto a link that does not lead to a directory ({})", sk, tkey));
+                                return;
+                            }
+                        }
+                    } else {
+                        fail(c.ex, format!("directory {} onto existing non-directory {}", sk, tkey));
                         return;
                     }
-                    fail(c.ex, format!("directory {} onto existing non-directory {}", sk, tkey));
-                    return;
                 }
             }
             visiting.push(real_key.clone());
@@ -763,10 +774,6 @@ fn copy_entry(c: &mut Ctx, fs: &mut MFs, sk: &str, target: &str, visiting: &mut 
     }
 }
 
-fn mark_open_below(c: &mut Ctx, fs: &mut MFs, real_key: &str, target: &str) {
-    // everything the directory copy could touch through a link is unspecified
-    let _ = (c, fs, real_key, target);
-}
 
 // ---------------------------------------------------------------------------------------------
 // comparison of a snapshot with the expectation
